@@ -47,7 +47,7 @@ func c04Probes(rows []dbgen.Row) []int64 {
 }
 
 func runC04(r *ev.Run) {
-	r.Rule = "every T1 table b-tree shape within bounds x 3 rowid sets x 2 layouts (separator = max of left / value in the gap) x every probe rowid {present, both neighbours, gap middle, last of gap (= separator), min64, max64, 0, -1, 1} through SelectRowid, PKSelect(alias pk) and Table.Rowid; oracle = the builder's logical rows; non-trivial = probes on images with interior pages"
+	r.Rule = "every T1 table b-tree shape within bounds x 3 rowid sets x 2 layouts (separator = max of left / value in the gap) x every probe rowid {present, both neighbours, gap middle, last of gap (= separator), min64, max64, 0, -1, 1} through SelectRowid, PKSelect(alias pk) and Table.Rowid, then every probe again in descending order on the same handle; oracle = the builder's logical rows; non-trivial = probes on images with interior pages"
 	r.Set("bounds", fmt.Sprintf("%+v", allBounds(r)))
 	cols := []string{"a", "b", "c", "d", "e", "rowid"}
 	defer func() {
@@ -126,6 +126,25 @@ func c04Shapes(r *ev.Run, b shapeBounds, cols []string) {
 			if err != nil || (rec != nil) != present {
 				r.Violation("C04:Table.Rowid:"+class, fmt.Sprintf("Table.Rowid(%d): record=%v err=%v, row present=%v", id, rec != nil, err, present), art)
 			}
+		}
+		// the same handle once more in descending order: what an earlier lookup left in the page cache must not
+		// change what a later one returns
+		probes := c04Probes(rows)
+		for i := len(probes) - 1; i >= 0; i-- {
+			id := probes[i]
+			want, present := byID[id]
+			var row sqlittle.Row
+			var err error
+			if p := Safely(func() { row, err = h.SelectRowid("t1", id, cols...) }); p != nil {
+				r.Violation("C04:panic", fmt.Sprintf("SelectRowid(%d) panics: %v", id, p), si.Desc)
+				continue
+			}
+			r.Trans(1)
+			class := "absent"
+			if present {
+				class = "present"
+			}
+			c04Judge(r, "SelectRowid(second pass, descending)", class, id, CopyRowOrNil(row), err, want, present, map[string]interface{}{"image": si.Desc, "rowid": id, "present": present, "pass": "second, descending"})
 		}
 	})
 }
